@@ -100,11 +100,13 @@ class C07(Engine):
         for g in groups:
             bases += P.groups.get(g, [])
         rng = core.derive_rng("c07.bases", self.seed, 0)
+        gens = [b for b in bases if P.meta[b]["group"] in ("gen", "special_clean", "special_notice")]
+        rest = [b for b in bases if b not in gens]
+        rng.shuffle(rest)
         if q:
-            gens = [b for b in bases if P.meta[b]["group"] in ("gen", "special_clean", "special_notice")]
-            rest = [b for b in bases if b not in gens]
-            rng.shuffle(rest)
             bases = gens[:34] + rest[:10]   # every boundary of 44 base programs
+        else:
+            bases = gens[:150] + rest[:60]  # every boundary of 210 base programs, all fragments
         idx = 1_000_000
         for b in bases:
             f = P.files[b]
